@@ -421,7 +421,7 @@ fn gen_user_prog(rng: &mut StdRng) -> (String, usize) {
 
 pub fn gen_trapmode(a: &Args, out: &mut Out) {
     let mut rng = rng_for(a, 0xD3);
-    let n = a.get_u64("n", if a.thorough() { 400 } else { 60 });
+    let n = a.get_u64("n", if a.thorough() { 400 } else { 45 });
     set_pair_tag("trapmode");
     let mut run = 1;
     for k in 0..n {
